@@ -16,9 +16,9 @@ import (
 
 type exactAut struct{ s []byte }
 
-func (a exactAut) Start() int { return 0 }
-func (a exactAut) IsMatch(st int) bool { return st == len(a.s) }
-func (a exactAut) CanMatch(st int) bool { return st >= 0 }
+func (a exactAut) Start() int               { return 0 }
+func (a exactAut) IsMatch(st int) bool      { return st == len(a.s) }
+func (a exactAut) CanMatch(st int) bool     { return st >= 0 }
 func (a exactAut) WillAlwaysMatch(int) bool { return false }
 func (a exactAut) Accept(st int, b byte) int {
 	if st < 0 || st >= len(a.s) || a.s[st] != b {
@@ -29,9 +29,9 @@ func (a exactAut) Accept(st int, b byte) int {
 
 type prefixAut struct{ s []byte }
 
-func (a prefixAut) Start() int { return 0 }
-func (a prefixAut) IsMatch(st int) bool { return st == len(a.s) }
-func (a prefixAut) CanMatch(st int) bool { return st >= 0 }
+func (a prefixAut) Start() int                  { return 0 }
+func (a prefixAut) IsMatch(st int) bool         { return st == len(a.s) }
+func (a prefixAut) CanMatch(st int) bool        { return st >= 0 }
 func (a prefixAut) WillAlwaysMatch(st int) bool { return st == len(a.s) }
 func (a prefixAut) Accept(st int, b byte) int {
 	if st < 0 {
